@@ -13,6 +13,7 @@ mod gcd;
 mod rational;
 mod sieve;
 mod iter;
+mod tensor;
 
 use util::arg_value;
 
@@ -48,6 +49,8 @@ fn main() {
         ("sieve", "record") => sieve::record(seed, &tier, &out),
         ("iter", "replay") => iter::replay(&args[3], &out),
         ("iter", "record") => iter::record(seed, &tier, &out),
+        ("tensor", "replay") => tensor::replay(&args[3], &out),
+        ("tensor", "record") => tensor::record(seed, &tier, &out),
         ("mint", "record") => mint::record(seed, &tier, &out),
         ("writer", "replay") => writer::replay(&args[3], &out),
         ("writer", "record") => writer::record(seed, &tier, &out),
